@@ -468,16 +468,25 @@ pub fn record(args: &[String]) {
     let sessions: usize = args[1].parse().unwrap();
     let mut out = std::io::BufWriter::new(std::fs::File::create(&args[2]).unwrap());
     let seeds: Vec<u64> = (0..sessions as u64).map(|i| seed.wrapping_mul(1_000_003).wrapping_add(i)).collect();
+    let first_seed = seeds.first().copied();
     let traces = par_map(&seeds, |s| {
         let mut rng = StdRng::seed_from_u64(*s);
         let mut repo = Repo::new(rng.gen_range(0..4));
         let mut events = vec![json!({"k": "reset"})];
         let mut branches: Vec<String> = vec!["main".into()];
         let mut tags: Vec<String> = vec![];
-        let steps = rng.gen_range(8..26);
+        // the first session of every recording starts with a scripted criss-cross: main merges feature/x, feature/x
+        // merges an older state of main, main merges feature/x again - the last merge brings in nothing but a merge commit
+        let mut script: std::collections::VecDeque<(&str, Value)> = if Some(*s) == first_seed {
+            vec![("tag", to_cps("v1.0.0")), ("branch", json!("feature/x")), ("commit", json!([])), ("branch", json!("dev")), ("checkout", json!("feature/x")),
+                 ("commit", json!([])), ("checkout", json!("main")), ("merge", json!("feature/x")), ("checkout", json!("feature/x")), ("merge", json!("dev")),
+                 ("checkout", json!("main")), ("merge", json!("feature/x"))].into()
+        } else { Default::default() };
+        let steps = rng.gen_range(8..26) + script.len();
         for _ in 0..steps {
             let n = repo.hashes.len();
-            let (op, arg): (&str, Value) = match rng.gen_range(0..15) {
+            let scripted = script.pop_front();
+            let (op, arg): (&str, Value) = if let Some(x) = scripted { x } else { match rng.gen_range(0..15) {
                 0..=2 if n < 12 => ("commit", json!([])),
                 3 => { let b = BRANCHES[rng.gen_range(0..BRANCHES.len())]; if branches.iter().any(|x| x == b) { continue } ("branch", json!(b)) }
                 4 => ("checkout", json!(branches[rng.gen_range(0..branches.len())])),
@@ -491,7 +500,7 @@ pub fn record(args: &[String]) {
                 13 if n < 12 => ("amend", json!([])),
                 14 if !tags.is_empty() => (if rng.gen_bool(0.5) { "movetag" } else { "moveatag" }, to_cps(&tags[rng.gen_range(0..tags.len())])),
                 _ => continue,
-            };
+            } };
             // "merge" must make a commit, "mergeff" must move HEAD: otherwise git did nothing
             let before = (repo.hashes.len(), repo.git(&["rev-parse", "HEAD"], None).unwrap_or_default());
             let flow_before = if op == "commit" || op == "merge" { (flow_out(&repo, "semver"), flow_out(&repo, "pep440"), observe(&repo, "auto")) } else { (None, None, json!({})) };
